@@ -147,6 +147,9 @@ func TestC10ManagerFaults(t *testing.T) {
 			if rapid.Bool().Draw(t, "startUnlocked") {
 				m.OpUnlock(t) // half of the histories do not start locked
 			}
+			// some blocks are connected already in most histories, so that
+			// moving the sync point back has hashes to forget
+			m.AdvanceSync(rapid.IntRange(0, 4).Draw(t, "blocksConnected"))
 			enums, multi := 0, 0
 			enumerate := func() {
 				for try := 0; try < 3; try++ {
